@@ -2058,4 +2058,11 @@ def run(status, changed, fns, read_src):
         translate_one(spec, status, texts)
     emit_file(changed, "CodecLeaves", ", ".join((COD_REL, BFE_REL)), ["TF.Gen.ConvLoops"], texts)
     run_p03(status, changed, read_src)      # P03
+    # ---- BEGIN BT8 hook: generic codec combinators (tools/rs2lean_codec.py); reuses the registries left in G
+    try:
+        import rs2lean_codec
+        rs2lean_codec.run(status, changed, read_src)
+    except Exception as ex:      # never fatal for the functions above; recorded as a refusal
+        status["failed"]["codec generic"] = f"internal: {type(ex).__name__}: {ex}"
+    # ---- END BT8 hook
 # END BT5
